@@ -47,10 +47,18 @@ func (g *slowInitGen) Init(parties []uint16, threshold int, sendMsg func(msg []b
 	g.TBLS.Init(parties, threshold, sendMsg)
 }
 
-func build(silent bool, byz uint16, seed uint64, slowInit bool) *network {
-	nw := &network{byz: byz, rng: &prng{s: seed}}
-	membership := func() map[UniversalID]PartyID { return map[UniversalID]PartyID{1: 1, 2: 2, 3: 3} }
-	for id := uint16(1); id <= n; id++ {
+// build: nodes with the given identifiers out of `configured` configured members 1..configured (identity mapping to party ids)
+func build(silent bool, byz uint16, seed uint64, slowInit bool, ids []uint16, configured int) *network {
+	nw := &network{byz: byz, rng: &prng{s: seed}, ids: ids, index: map[uint16]int{}}
+	membership := func() map[UniversalID]PartyID {
+		m := map[UniversalID]PartyID{}
+		for i := 1; i <= configured; i++ {
+			m[UniversalID(i)] = PartyID(i)
+		}
+		return m
+	}
+	for pos, id := range ids {
+		nw.index[id] = pos
 		kgf := func(id uint16) KeyGenerator {
 			if slowInit {
 				return &slowInitGen{TBLS: &bls.TBLS{Logger: nolog{}, Party: id}}
@@ -59,7 +67,7 @@ func build(silent bool, byz uint16, seed uint64, slowInit bool) *network {
 		}
 		sf := func(id uint16) Signer { return &bls.TBLS{Logger: nolog{}, Party: id} }
 		if silent {
-			pick := func(topic []byte, expected int) []uint16 { return []uint16{1, 2, 3}[:expected] }
+			pick := func(topic []byte, expected int) []uint16 { return append([]uint16(nil), ids...)[:expected] }
 			nw.nodes = append(nw.nodes, threshold.SilentScheme(id, nolog{}, kgf, sf, 1, nw.sender(id), membership, pick))
 		} else {
 			nw.nodes = append(nw.nodes, threshold.LoudScheme(id, nolog{}, kgf, sf, 1, nw.sender(id), membership))
@@ -177,6 +185,7 @@ func (nw *network) check(res *result, digest []byte, parties []int, sigs [][]byt
 
 // scenario = mode[-dup][-flood][-api]:  loud|silent;  dup: party 3's traffic is duplicated and replayed out of phase;
 // slowinit: the key generator's Init is delayed by 20 ms (early traffic meets an instance that is not set up yet);
+// earlysync: authentic sync messages of member 1 for the session's sync topics, dispatched continuously from before the call;
 // flood: forged early / out-of-phase messages in party 3's name all along;  api: SetStoredData during a signing session
 func run(name string, seed uint64) *result {
 	res := &result{Scenario: name, Errors: []string{}}
@@ -195,7 +204,12 @@ func run(name string, seed uint64) *result {
 	if has("dup") || has("flood") {
 		byz = 3
 	}
-	nw := build(silent, byz, seed, has("slowinit"))
+	ids, configured := []uint16{1, 2, 3}, n
+	if has("earlysync") { // many configured members, the three nodes last: setting a topic up takes the longest for them
+		configured = earlyConfigured
+		ids = []uint16{earlyConfigured - 2, earlyConfigured - 1, earlyConfigured}
+	}
+	nw := build(silent, byz, seed, has("slowinit"), ids, configured)
 	stop := make(chan struct{})
 	var bg sync.WaitGroup
 	if has("dup") {
@@ -212,6 +226,42 @@ func run(name string, seed uint64) *result {
 	kgTimeout := 20 * time.Second
 	if has("flood") {
 		kgTimeout = 4 * time.Second // forged messages in the sender's own rounds make the receivers drop the real ones
+	}
+	early := has("earlysync")
+	if early {
+		// the early member makes itself part of every session, so the sessions end with "too many members" or by their
+		// short context: what is exercised is the set-up of each synchronisation against the dispatcher
+		all := append([]uint16{earlyMember}, nw.ids...)
+		stopEarly := nw.earlyTraffic([]int{1, 2, 3}, [][]byte{topicHash(DkgTopicName), membersTopic(nw.ids)}, all)
+		time.Sleep(2 * time.Millisecond)
+		nw.keygen(res, 700*time.Millisecond)
+		stopEarly()
+		if lastShares != nil {
+			for i := range nw.nodes {
+				nw.nodes[i].SetStoredData(lastShares[i])
+			}
+		}
+		digest := topicHash("message of " + name)
+		for k, parties := range [][]int{{1, 2}, {1, 3}, {2, 3}, {1, 2}, {1, 3}, {2, 3}} {
+			topic := fmt.Sprintf("early-%d", k)
+			peers := []uint16{earlyMember}
+			for _, p := range parties {
+				peers = append(peers, nw.ids[p-1])
+			}
+			th := topicHash(topic)
+			stopS := nw.earlyTraffic(parties, [][]byte{th, topicHash(string(th))}, peers)
+			time.Sleep(2 * time.Millisecond)
+			sigs := nw.sign(res, topic, digest, parties, 500*time.Millisecond, nil)
+			stopS()
+			res.SignRuns++
+			for _, sg := range sigs {
+				if sg != nil {
+					res.SignOK++
+					break
+				}
+			}
+		}
+		return nw.finish(res, t0, stop, &bg)
 	}
 	shares := nw.keygen(res, kgTimeout)
 	if shares == nil {
@@ -253,6 +303,10 @@ func run(name string, seed uint64) *result {
 		nw.check(res, digest, one, sigB)
 		nw.check(res, digest, other, sigC)
 	}
+	return nw.finish(res, t0, stop, &bg)
+}
+
+func (nw *network) finish(res *result, t0 time.Time, stop chan struct{}, bg *sync.WaitGroup) *result {
 	close(stop)
 	bg.Wait()
 	atomic.StoreInt32(&nw.stopped, 1)
